@@ -1,7 +1,9 @@
 package main
 
 import (
+	"fmt"
 	"go/ast"
+	"go/parser"
 	"go/token"
 	"go/types"
 	"strings"
@@ -14,7 +16,7 @@ func init() {
 			"R3 the in-use count changes by +1 only after a successful claiming CAS and by -1 only after a successful clearing CAS, and Clear returns false without decrementing when the bit is already clear; R4 range by construction: capacities 128/32768 by protocol version, word count = capacity/64, exactly the bit of id 0 pre-set, word indexes reduced modulo the word count, id = word*64 + bit with bit < 64; R5 only exec allocates and only releaseStream clears (=C01.R4).",
 		NotDecided: "uniqueness and progress over all interleavings of the atomic steps (linearizability of the lock-free algorithm); exact availability counts under races.",
 		Rules: []*Rule{
-			{ID: "C08.R1", Floor: 10, Doc: "streams/inuseStreams/offset only through sync/atomic outside New", Run: c08r1},
+			{ID: "C08.R1", Floor: 8, Doc: "streams/inuseStreams/offset only through sync/atomic outside New", Run: c08r1},
 			{ID: "C08.R2", Floor: 6, Doc: "claim/clear by CAS: fresh new value, bit tested in the old value, retry loop re-tests the same bit, id from the same word and bit", Run: c08r2},
 			{ID: "C08.R3", Floor: 4, Doc: "count paired with successful CAS; Clear returns false without decrement when already clear", Run: c08r3},
 			{ID: "C08.R4", Floor: 6, Doc: "capacity, reserved id 0 and index ranges by construction", Run: c08r4},
@@ -33,10 +35,51 @@ func streamsPkgFuncs(p *Program) []*FuncInfo {
 	return out
 }
 
+// ---- shared helpers: the word pointers of the allocator ----
+
+// wordKey resolves a pointer expression used as the first argument of an atomic call to the stream word it
+// designates: "&s.streams[IDX]" directly, or a local pointer defined once from such an expression. It returns
+// the index expression.
+func wordKey(info *types.Info, fi *FuncInfo, e ast.Expr) (idx ast.Expr, ok bool) {
+	e = ast.Unparen(e)
+	if u, isU := e.(*ast.UnaryExpr); isU && u.Op == token.AND {
+		if ix, isIx := ast.Unparen(u.X).(*ast.IndexExpr); isIx {
+			if sel, isSel := ast.Unparen(ix.X).(*ast.SelectorExpr); isSel {
+				if fv := fieldOf(info, sel); fv != nil && fv.Name() == "streams" && typeNameOf(info.TypeOf(sel.X)) == "IDGenerator" {
+					return ix.Index, true
+				}
+			}
+			// a []uint64 local or parameter: in this package only the allocator's words have that type (a
+			// sub-slice of s.streams handed to a helper)
+			if t := info.TypeOf(ix.X); t != nil {
+				if sl, isSl := t.Underlying().(*types.Slice); isSl {
+					if b, isB := sl.Elem().Underlying().(*types.Basic); isB && b.Kind() == types.Uint64 {
+						if _, isId := ast.Unparen(ix.X).(*ast.Ident); isId {
+							return ix.Index, true
+						}
+					}
+				}
+			}
+		}
+		return nil, false
+	}
+	if id, isId := e.(*ast.Ident); isId && info.Uses[id] != nil && singleAssigned(info, fi.Decl.Body, info.Uses[id]) {
+		if d := localDef(info, fi, id); d != nil {
+			return wordKey(info, fi, d)
+		}
+	}
+	return nil, false
+}
+
 func c08r1(p *Program, r *Report) {
 	n := 0
 	for _, fi := range streamsPkgFuncs(p) {
+		if fi.Name == "streams.New" {
+			continue
+		}
 		info := fi.Pkg.TypesInfo
+		// local pointers to shared words: w := &s.streams[i] / &s.offset ...
+		ptrVars := map[types.Object]bool{}
 		ast.Inspect(fi.Decl.Body, func(x ast.Node) bool {
 			sel, ok := x.(*ast.SelectorExpr)
 			if !ok {
@@ -51,13 +94,9 @@ func c08r1(p *Program, r *Report) {
 			default:
 				return true
 			}
-			if _, inLit := p.Parent(sel).(*ast.KeyValueExpr); inLit {
-				return true
-			}
 			n++
-			// must be (part of) &x passed to an atomic function, or len(s.streams)
 			var cur ast.Node = sel
-			okAtomic := false
+			okAtomic, why := false, ""
 			for i := 0; i < 4; i++ {
 				par := p.Parent(cur)
 				switch y := par.(type) {
@@ -75,16 +114,89 @@ func c08r1(p *Program, r *Report) {
 					name := calleeName(info, y)
 					if strings.HasPrefix(name, "atomic.") {
 						if _, isAddr := cur.(*ast.UnaryExpr); isAddr {
-							okAtomic = true
+							okAtomic, why = true, "argument of "+name
 						}
 					}
 					if name == "builtin.len" {
-						okAtomic = true // the slice header is immutable after New
+						okAtomic, why = true, "len of the slice header, immutable after New"
+					}
+				case *ast.SliceExpr:
+					// s.streams[a:b] handed to a helper of this package: the helper's element accesses are checked below
+					if y.X == cur {
+						if c2, ok := p.Parent(par).(*ast.CallExpr); ok {
+							if fn := calleeOf(info, c2); fn != nil && p.FuncOf(fn) != nil && p.FuncOf(fn).Pkg.PkgPath == streamsPath {
+								okAtomic, why = true, "sub-slice passed to "+p.FuncOf(fn).Name+" (its element accesses are checked separately)"
+							}
+						}
+					}
+				case *ast.AssignStmt:
+					// w := &s.streams[i]: every use of w must be an argument of an atomic call
+					if _, isAddr := cur.(*ast.UnaryExpr); isAddr && len(y.Lhs) == 1 {
+						if id, isId := y.Lhs[0].(*ast.Ident); isId {
+							obj := info.Defs[id]
+							if obj == nil {
+								obj = info.Uses[id]
+							}
+							allAtomic := obj != nil
+							ast.Inspect(fi.Decl.Body, func(z ast.Node) bool {
+								uid, isU := z.(*ast.Ident)
+								if !isU || info.Uses[uid] != obj {
+									return true
+								}
+								c, isCall := p.Parent(uid).(*ast.CallExpr)
+								if !isCall || !strings.HasPrefix(calleeName(info, c), "atomic.") || len(c.Args) == 0 || c.Args[0] != ast.Expr(uid) {
+									allAtomic = false
+								}
+								return true
+							})
+							if allAtomic {
+								ptrVars[obj] = true
+								okAtomic, why = true, "address kept in "+id.Name+", which is only ever passed to sync/atomic"
+							}
+						}
 					}
 				}
 				break
 			}
-			r.Check(okAtomic, sel, fi.Name+" accesses IDGenerator."+fv.Name(), "through sync/atomic", "the allocator's shared state is read or written without sync/atomic: a torn or stale word hands one id to two requests")
+			r.Check(okAtomic, sel, fi.Name+" accesses IDGenerator."+fv.Name(), why, "the allocator's shared state is read or written without sync/atomic: a torn or stale word hands one id to two requests")
+			return true
+		})
+	}
+	// words reached through a []uint64 local or parameter (a sub-slice of s.streams): element accesses only as
+	// the address argument of a sync/atomic call
+	for _, fi := range streamsPkgFuncs(p) {
+		if fi.Name == "streams.New" {
+			continue
+		}
+		info := fi.Pkg.TypesInfo
+		ast.Inspect(fi.Decl.Body, func(x ast.Node) bool {
+			ix, ok := x.(*ast.IndexExpr)
+			if !ok {
+				return true
+			}
+			id, ok := ast.Unparen(ix.X).(*ast.Ident)
+			if !ok {
+				return true
+			}
+			t := info.TypeOf(id)
+			if t == nil {
+				return true
+			}
+			sl, isSl := t.Underlying().(*types.Slice)
+			if !isSl {
+				return true
+			}
+			if b, isB := sl.Elem().Underlying().(*types.Basic); !isB || b.Kind() != types.Uint64 {
+				return true
+			}
+			n++
+			okA := false
+			if u, ok := p.Parent(ix).(*ast.UnaryExpr); ok && u.Op == token.AND {
+				if c, ok := p.Parent(u).(*ast.CallExpr); ok && strings.HasPrefix(calleeName(info, c), "atomic.") {
+					okA = true
+				}
+			}
+			r.Check(okA, ix, fi.Name+" accesses word "+exprStr(ix), "address argument of sync/atomic", "a stream word is read or written through "+exprStr(ix)+" without sync/atomic")
 			return true
 		})
 	}
@@ -93,261 +205,420 @@ func c08r1(p *Program, r *Report) {
 	}
 }
 
-// casCalls returns the CompareAndSwapUint64 calls on s.streams[...] in fi.
-func casCalls(p *Program, fi *FuncInfo) []*ast.CallExpr {
-	info := fi.Pkg.TypesInfo
-	var out []*ast.CallExpr
-	ast.Inspect(fi.Decl.Body, func(x ast.Node) bool {
-		c, ok := x.(*ast.CallExpr)
-		if ok && calleeName(info, c) == "atomic.CompareAndSwapUint64" && len(c.Args) == 3 && strings.Contains(exprStr(c.Args[0]), ".streams[") {
-			out = append(out, c)
+// casSite describes one compare-and-swap on a stream word.
+type casSite struct {
+	fi    *FuncInfo
+	call  *ast.CallExpr
+	idx   ast.Expr   // index of the word
+	old   *ast.Ident // variable holding the loaded word
+	mask  ast.Expr   // the bit
+	claim bool       // new = old | mask (claim) or old &^ mask (clear)
+	shape string
+}
+
+func casSites(p *Program) (sites []casSite, problems []string) {
+	for _, fi := range streamsPkgFuncs(p) {
+		info := fi.Pkg.TypesInfo
+		ast.Inspect(fi.Decl.Body, func(x ast.Node) bool {
+			c, ok := x.(*ast.CallExpr)
+			if !ok || calleeName(info, c) != "atomic.CompareAndSwapUint64" || len(c.Args) != 3 {
+				return true
+			}
+			idx, isWord := wordKey(info, fi, c.Args[0])
+			if !isWord {
+				return true
+			}
+			st := casSite{fi: fi, call: c, idx: idx}
+			old, ok := ast.Unparen(c.Args[1]).(*ast.Ident)
+			if !ok {
+				problems = append(problems, p.Pos(c)+": the expected value of the CAS is not a variable holding the loaded word")
+				return true
+			}
+			st.old = old
+			nb, ok := ast.Unparen(c.Args[2]).(*ast.BinaryExpr)
+			if !ok || exprStr(ast.Unparen(nb.X)) != old.Name {
+				problems = append(problems, p.Pos(c)+": the new value of the CAS ("+exprStr(c.Args[2])+") is not derived from the old value "+old.Name)
+				return true
+			}
+			switch nb.Op {
+			case token.OR:
+				st.claim, st.mask = true, nb.Y
+			case token.AND_NOT:
+				st.mask = nb.Y
+			case token.AND:
+				if u, isU := ast.Unparen(nb.Y).(*ast.UnaryExpr); isU && u.Op == token.XOR {
+					st.mask = u.X
+				}
+			}
+			if st.mask == nil {
+				problems = append(problems, p.Pos(c)+": the new value of the CAS ("+exprStr(c.Args[2])+") neither sets nor clears one mask in the old value")
+				return true
+			}
+			sites = append(sites, st)
+			return true
+		})
+	}
+	return
+}
+
+// casOutcome: cond is (possibly negated) exactly the CAS call c; returns whether the edge with value val
+// means the CAS succeeded.
+func casOutcome(cond ast.Expr, c *ast.CallExpr, val bool) (succeeded, isThis bool) {
+	e := ast.Unparen(cond)
+	neg := false
+	for {
+		u, ok := e.(*ast.UnaryExpr)
+		if !ok || u.Op != token.NOT {
+			break
 		}
-		return true
-	})
-	return out
+		neg = !neg
+		e = ast.Unparen(u.X)
+	}
+	if e != ast.Expr(c) {
+		return false, false
+	}
+	return val != neg, true
 }
 
 func c08r2(p *Program, r *Report) {
-	for _, name := range []string{"streams.(*IDGenerator).GetStream", "streams.(*IDGenerator).Clear"} {
-		fi := r.NeedFunc(name)
-		if fi == nil {
-			continue
-		}
+	sites, problems := casSites(p)
+	for _, pr := range problems {
+		r.Bad(nil, "stream word CAS at "+pr, pr)
+	}
+	nclaim, nclear := 0, 0
+	for _, st := range sites {
+		fi, c := st.fi, st.call
 		g := p.GraphOf(fi)
 		info := g.Info
-		cas := casCalls(p, fi)
-		if len(cas) == 0 {
-			r.Bad(fi.Decl, name+" claims/clears by compare-and-swap", "no CompareAndSwapUint64 on the stream words: the bit is changed non-atomically")
+		kind := "clear"
+		if st.claim {
+			kind = "claim"
+			nclaim++
+		} else {
+			nclear++
+		}
+		name := fi.Name + " " + kind + " CAS"
+		oldObj := info.Uses[st.old]
+		// (a) every definition of the old value is a load of the same word
+		fresh, nd := true, 0
+		why := ""
+		ast.Inspect(fi.Decl.Body, func(x ast.Node) bool {
+			as, ok := x.(*ast.AssignStmt)
+			if !ok || len(as.Lhs) != len(as.Rhs) {
+				return true
+			}
+			for i, l := range as.Lhs {
+				id, ok := l.(*ast.Ident)
+				if !ok || (info.Defs[id] != oldObj && info.Uses[id] != oldObj) {
+					continue
+				}
+				nd++
+				lc, isCall := ast.Unparen(as.Rhs[i]).(*ast.CallExpr)
+				okLoad := false
+				if isCall && calleeName(info, lc) == "atomic.LoadUint64" && len(lc.Args) == 1 {
+					if ix, isW := wordKey(info, fi, lc.Args[0]); isW && exprStr(ix) == exprStr(st.idx) {
+						okLoad = true
+					}
+				}
+				if !okLoad {
+					fresh = false
+					why = st.old.Name + " = " + exprStr(as.Rhs[i])
+				}
+			}
+			return true
+		})
+		if nd == 0 {
+			r.Unresolved("%s: the old value %s is not loaded in this function (passed in?)", name, st.old.Name)
 			continue
 		}
-		facts := g.GuardFacts()
-		for _, c := range cas {
-			oldArg, newArg := c.Args[1], c.Args[2]
-			oldID, isID := ast.Unparen(oldArg).(*ast.Ident)
-			if !isID {
-				r.Bad(c, name+" CAS old value is a variable", "the expected value of the CAS is not a variable holding the loaded word")
+		r.Check(fresh, c, name+" compares against the word as loaded from the same slot", "every definition of "+st.old.Name+" is atomic.LoadUint64 of that word",
+			"the value the CAS compares with is not (only) the atomically loaded content of the same word ("+why+"): a stale image of the word is written back and overwrites bits changed concurrently (an id handed out twice, or leaked)")
+		// (b) the bit was tested in the current old value: facts at the CAS
+		f, _ := g.GuardFacts().Before(p.stmtOf(c, fi))
+		// the CAS may itself be the branch condition: facts before that node are the facts on entry to the condition
+		if cn, ok := g.cfgNodeOf(c); ok {
+			if f2, ok2 := g.GuardFacts().Before(cn); ok2 {
+				f = f2
+			}
+		}
+		m := exprStr(st.mask)
+		o := st.old.Name
+		known := func(src string) (bool, bool) {
+			e, err := parser.ParseExpr(src)
+			if err != nil {
+				return false, false
+			}
+			return f.Known(e)
+		}
+		tested := false
+		var forms [][2]string
+		if st.claim {
+			forms = [][2]string{{o + "&" + m + " == 0", "t"}, {o + "&" + m + " != 0", "f"}, {o + "&" + m + " == " + m, "f"}, {o + "&" + m + " != " + m, "t"}}
+		} else {
+			forms = [][2]string{{o + "&" + m + " == 0", "f"}, {o + "&" + m + " != 0", "t"}, {o + "&" + m + " == " + m, "t"}, {o + "&" + m + " != " + m, "f"}}
+		}
+		for _, fm := range forms {
+			if v, ok := known(fm[0]); ok && v == (fm[1] == "t") {
+				tested = true
+			}
+		}
+		r.Check(tested, c, name+" attempted only with the bit tested in the current old value", ifs(st.claim, "bit known clear in "+o, "bit known set in "+o),
+			"the CAS is attempted without the bit having been tested in the value it compares with (after a reload the test must be repeated): "+ifs(st.claim, "an id that another request holds is claimed again", "a clear bit is 'released' and the in-use count is decremented twice"))
+		// (c) after a failed CAS the word is reloaded before the next attempt
+		type st2 struct{ stale bool }
+		unknownUse := false
+		sol := Solve(g, Lattice[st2]{
+			Join: func(a, b st2) st2 { return st2{a.stale || b.stale} },
+			Eq:   func(a, b st2) bool { return a == b },
+			Step: func(s st2, step Step) st2 {
+				switch step.Kind {
+				case StCond:
+					if succ, isThis := casOutcome(step.Node.(ast.Expr), c, step.Val); isThis {
+						if !succ {
+							return st2{true}
+						}
+						return s
+					}
+				case StNode:
+					if as, ok := step.Node.(*ast.AssignStmt); ok {
+						for _, l := range as.Lhs {
+							if id, ok := l.(*ast.Ident); ok && (info.Uses[id] == oldObj || info.Defs[id] == oldObj) {
+								return st2{false}
+							}
+						}
+					}
+				}
+				return s
+			},
+		})
+		// the CAS must be a branch condition by itself
+		if par, ok := p.Parent(c).(*ast.UnaryExpr); ok {
+			_ = par
+		}
+		isCond := false
+		for n := ast.Node(c); n != nil; n = p.Parent(n) {
+			switch y := p.Parent(n).(type) {
+			case *ast.IfStmt:
+				isCond = y.Cond == n
+			case *ast.ForStmt:
+				isCond = y.Cond == n
+			case *ast.UnaryExpr, *ast.ParenExpr:
 				continue
 			}
-			oldObj := info.Uses[oldID]
-			// derived-from-current-old dataflow
-			derived := Solve(g, Lattice[strset]{
-				Init: strset{}, Join: func(a, b strset) strset { return a.intersect(b) }, Eq: func(a, b strset) bool { return a.eq(b) },
-				Step: func(s strset, st Step) strset {
-					if st.Kind != StNode {
-						return s
-					}
-					as, ok := st.Node.(*ast.AssignStmt)
-					if !ok || len(as.Lhs) != len(as.Rhs) {
-						return s
-					}
-					for i, l := range as.Lhs {
-						id, ok := l.(*ast.Ident)
-						if !ok {
-							continue
-						}
-						obj := info.Defs[id]
-						if obj == nil {
-							obj = info.Uses[id]
-						}
-						if obj == oldObj {
-							return strset{} // old reloaded: everything derived from the previous value is stale
-						}
-						mentionsOld := false
-						ast.Inspect(as.Rhs[i], func(m ast.Node) bool {
-							if rid, ok := m.(*ast.Ident); ok && info.Uses[rid] == oldObj {
-								mentionsOld = true
+			break
+		}
+		if !isCond {
+			unknownUse = true
+		}
+		if unknownUse {
+			r.Unresolved("%s: the result of the CAS is not used directly as a branch condition", name)
+			continue
+		}
+		var cn ast.Node = c
+		if x, ok := g.cfgNodeOf(c); ok {
+			cn = x
+		}
+		s0, _ := sol.Before(cn)
+		if st.claim {
+			// a failed CAS says that some bit of the word changed, not that this bit was taken: the same bit must be
+			// tested again in the reloaded word before the scan moves on to another bit
+			maskObj := types.Object(nil)
+			if mid, ok := ast.Unparen(st.mask).(*ast.Ident); ok {
+				maskObj = info.Uses[mid]
+			}
+			type st3 struct{ pending, skipped bool }
+			sol3 := Solve(g, Lattice[st3]{
+				Join: func(a, b st3) st3 { return st3{a.pending || b.pending, a.skipped || b.skipped} },
+				Eq:   func(a, b st3) bool { return a == b },
+				Step: func(s st3, step Step) st3 {
+					switch step.Kind {
+					case StCond:
+						if succ, isThis := casOutcome(step.Node.(ast.Expr), c, step.Val); isThis {
+							if !succ {
+								s.pending = true
 							}
-							return true
-						})
-						if mentionsOld {
-							s = s.with(id.Name)
-						} else {
-							s = s.without(id.Name)
+							return s
+						}
+						if maskObj != nil && testsBitOf(info, step.Node, oldObj) {
+							s.pending = false
+						}
+					case StNode:
+						if as, ok := step.Node.(*ast.AssignStmt); ok && maskObj != nil {
+							for _, l := range as.Lhs {
+								if id, ok := l.(*ast.Ident); ok && (info.Defs[id] == maskObj || info.Uses[id] == maskObj) && s.pending {
+									s.skipped = true
+									s.pending = false
+								}
+							}
 						}
 					}
 					return s
 				},
 			})
-			fresh := false
-			d, _ := derived.Before(c)
-			ast.Inspect(newArg, func(m ast.Node) bool {
-				if id, ok := m.(*ast.Ident); ok && (info.Uses[id] == oldObj || d[id.Name]) {
-					fresh = true
-				}
-				return true
-			})
-			r.Check(fresh, c, name+" CAS new value derives from the current old value", "new = f(old) with old as loaded for this attempt",
-				"the new value of the compare-and-swap is not derived from the word as (re)loaded for this attempt: after a failed CAS the retry writes a stale image of the word and overwrites bits changed concurrently (an id handed out twice, or leaked)")
-			// the CAS sits in a retry loop whose condition tests the bit in old
-			fs, _ := p.enclosing(c, fi.Decl, func(m ast.Node) bool { _, ok := m.(*ast.ForStmt); return ok }).(*ast.ForStmt)
-			inCond := fs != nil && fs.Cond != nil && posWithin(fs.Cond, c.Pos())
-			retry := false
-			if fs != nil && fs.Cond != nil {
-				if inCond {
-					// for !CAS(...) { reload; re-test }
-					reload, retest := false, false
-					ast.Inspect(fs.Body, func(m ast.Node) bool {
-						if as, ok := m.(*ast.AssignStmt); ok && len(as.Lhs) == 1 && isIdentOf(info, as.Lhs[0], oldObj) {
-							reload = true
-						}
-						if b, ok := m.(*ast.BinaryExpr); ok && (b.Op == token.NEQ || b.Op == token.EQL) && testsBitOf(info, b, oldObj) {
-							retest = true
-						}
-						return true
-					})
-					retry = reload && retest
-				} else {
-					// for old&mask == 0 { if CAS {return}; reload }
-					testsBit := testsBitOf(info, fs.Cond, oldObj)
-					reload := false
-					ast.Inspect(fs.Body, func(m ast.Node) bool {
-						if as, ok := m.(*ast.AssignStmt); ok && len(as.Lhs) == 1 && isIdentOf(info, as.Lhs[0], oldObj) && as.Pos() > c.Pos() {
-							reload = true
-						}
-						return true
-					})
-					retry = testsBit && reload
-				}
-			}
-			r.Check(retry, c, name+" CAS retry loop reloads and re-tests the same bit", "failed CAS -> reload the word -> test the bit again",
-				"a failed compare-and-swap is not followed by reloading the word and re-testing the same bit: a CAS fails whenever any bit of the word changed, so the still-free bit is skipped (exhaustion reported although an id is free) or a stale decision is applied")
-			// bit tested in old before the CAS (claim: clear; release: set)
-			f, _ := facts.Before(c)
-			tested := inCond
-			for atom := range f.m {
-				if strings.Contains(atom, oldID.Name+" & ") || strings.Contains(atom, oldID.Name+"&") {
-					tested = true
-				}
-			}
-			if fs != nil && fs.Cond != nil && !inCond && testsBitOf(info, fs.Cond, oldObj) {
-				tested = true
-			}
-			if inCond {
-				// pre-check before the loop
-				pre := false
-				ast.Inspect(fi.Decl.Body, func(m ast.Node) bool {
-					if ifs, ok := m.(*ast.IfStmt); ok && ifs.Pos() < fs.Pos() && testsBitOf(info, ifs.Cond, oldObj) {
-						pre = true
-					}
-					return true
-				})
-				tested = pre
-			}
-			r.Check(tested, c, name+" CAS attempted only after testing the bit in the old value", "bit state known from the loaded word", "the CAS is attempted without testing the id's bit in the loaded word")
-		}
-		if name == "streams.(*IDGenerator).GetStream" {
-			// success return: streamFromBucket(pos, j) with the word index of the CAS and the bit of the mask
+			skipped := false
 			for _, e := range g.Exits() {
-				rs, ok := e.Node.(*ast.ReturnStmt)
-				if !ok || len(rs.Results) != 2 {
-					continue
+				if x, ok := sol3.AtExit(e); ok && x.skipped {
+					skipped = true
 				}
-				if v, ok := info.Types[rs.Results[1]]; !ok || v.Value == nil || v.Value.String() != "true" {
-					continue
-				}
-				f, _ := facts.Before(rs)
-				casTrue := false
-				for atom, v := range f.m {
-					if v && strings.HasPrefix(atom, "atomic.CompareAndSwapUint64(") {
-						casTrue = true
-					}
-				}
-				r.Check(casTrue, rs, name+" success return dominated by a successful CAS", "claimed by CAS", "an id is returned without a successful compare-and-swap having claimed its bit")
-				// same word and bit
-				okSame := false
-				if c, ok := ast.Unparen(rs.Results[0]).(*ast.CallExpr); ok && isCallTo(info, c, "streams.streamFromBucket") && len(c.Args) == 2 && len(cas) > 0 {
-					word := ""
-					if ix := findIndexIn(cas[0].Args[0]); ix != nil {
-						word = exprStr(ix.Index)
-					}
-					bitVar := ""
-					// mask := uint64(1 << streamOffset(j))
-					ast.Inspect(fi.Decl.Body, func(m ast.Node) bool {
-						if as, ok := m.(*ast.AssignStmt); ok && len(as.Lhs) == 1 && exprStr(as.Lhs[0]) == "mask" {
-							ast.Inspect(as.Rhs[0], func(k ast.Node) bool {
-								if sc, ok := k.(*ast.CallExpr); ok && isCallTo(info, sc, "streams.streamOffset") && len(sc.Args) == 1 {
-									bitVar = exprStr(sc.Args[0])
-								}
-								return true
-							})
-						}
-						return true
-					})
-					a0 := exprStr(stripWidening(info, c.Args[0]))
-					okSame = word != "" && bitVar != "" && (a0 == word || exprStr(c.Args[0]) == "int("+word+")") && exprStr(c.Args[1]) == bitVar
-				}
-				r.Check(okSame, rs, name+" returned id is built from the claimed word and bit", "streamFromBucket(pos, j) with the CAS's word and the mask's bit", "the returned id is not computed from the word index and bit that were claimed: a different (possibly in-use) id is handed out")
+			}
+			if maskObj == nil {
+				r.Unresolved("%s: the claimed bit is not held in a variable", name)
+			} else {
+				r.Check(!skipped, c, name+" re-tests the same bit after a failed attempt", "failed CAS -> reload -> same bit tested again",
+					"after a failed compare-and-swap the scan moves on to the next bit without testing the same bit in the reloaded word: a CAS fails whenever any bit of the word changed, so a still-free id is skipped (ids never used, exhaustion reported although ids are free)")
 			}
 		}
+		r.Check(!s0.stale, c, name+" retried only after reloading the word", "failed CAS -> "+o+" reloaded before the next attempt",
+			"after a failed compare-and-swap the next attempt can run without "+o+" having been reloaded: the retry spins forever on a stale value or, if the new value is computed once, writes a stale image of the word")
+	}
+	if nclaim == 0 || nclear == 0 {
+		r.Unresolved("expected a claiming and a clearing compare-and-swap on the stream words, found %d / %d", nclaim, nclear)
 	}
 }
 
-// testsBitOf reports whether n contains `old & <mask>` for the variable obj.
-func testsBitOf(info *types.Info, n ast.Node, obj types.Object) bool {
-	found := false
-	ast.Inspect(n, func(m ast.Node) bool {
-		if b, ok := m.(*ast.BinaryExpr); ok && b.Op == token.AND {
-			if isIdentOf(info, b.X, obj) || isIdentOf(info, b.Y, obj) {
-				found = true
+// successKind: fi is a helper that reports (last bool result true / first bool result) only after a successful
+// CAS of the given kind and does not itself update the in-use count. Returns "claim", "clear" or "".
+func successKind(p *Program, fi *FuncInfo, sites []casSite) string {
+	kind := ""
+	for _, st := range sites {
+		if st.fi == fi {
+			k := "clear"
+			if st.claim {
+				k = "claim"
 			}
+			if kind != "" && kind != k {
+				return ""
+			}
+			kind = k
 		}
-		return true
-	})
-	return found
-}
-
-func findIndexIn(e ast.Expr) *ast.IndexExpr {
-	var out *ast.IndexExpr
-	ast.Inspect(e, func(n ast.Node) bool {
-		if ix, ok := n.(*ast.IndexExpr); ok && out == nil {
-			out = ix
-		}
-		return true
-	})
-	return out
+	}
+	return kind
 }
 
 func c08r3(p *Program, r *Report) {
-	for _, name := range []string{"streams.(*IDGenerator).GetStream", "streams.(*IDGenerator).Clear"} {
-		fi := r.NeedFunc(name)
-		if fi == nil {
-			continue
+	sites, _ := casSites(p)
+	kindOf := map[*FuncInfo]string{}
+	for _, fi := range streamsPkgFuncs(p) {
+		kindOf[fi] = successKind(p, fi, sites)
+	}
+	// witness: call expression c in function fi evidences a successful CAS of kind k when it is true
+	witness := func(fi *FuncInfo, c *ast.CallExpr) string {
+		info := fi.Pkg.TypesInfo
+		for _, st := range sites {
+			if st.call == c {
+				if st.claim {
+					return "claim"
+				}
+				return "clear"
+			}
 		}
+		if fn := calleeOf(info, c); fn != nil {
+			if callee := p.FuncOf(fn); callee != nil && callee != fi && !hasCountUpdate(callee.Pkg.TypesInfo, callee) {
+				return kindOf[callee]
+			}
+		}
+		return ""
+	}
+	nadd := 0
+	for _, fi := range streamsPkgFuncs(p) {
 		g := p.GraphOf(fi)
 		info := g.Info
-		facts := g.GuardFacts()
-		want := int64(1)
-		if strings.HasSuffix(name, "Clear") {
-			want = -1
-		}
-		n := 0
-		ast.Inspect(fi.Decl.Body, func(x ast.Node) bool {
-			c, ok := x.(*ast.CallExpr)
-			if !ok || calleeName(info, c) != "atomic.AddInt32" || len(c.Args) != 2 || !strings.Contains(exprStr(c.Args[0]), "inuseStreams") {
-				return true
-			}
-			n++
-			v, isC := constInt(info, c.Args[1])
-			r.Check(isC && v == want, c, name+" changes the in-use count by "+itoa(int(want)), "delta "+itoa(int(want)), "the in-use count is changed by "+exprStr(c.Args[1])+" in "+name)
-			f, _ := facts.Before(c)
-			casTrue := false
-			for atom, val := range f.m {
-				if val && strings.HasPrefix(atom, "atomic.CompareAndSwapUint64(") {
-					casTrue = true
+		// events: success of a witness on a condition edge, count updates
+		cl := func(st Step) []string {
+			switch st.Kind {
+			case StCond:
+				e := ast.Unparen(st.Node.(ast.Expr))
+				neg := false
+				for {
+					u, ok := e.(*ast.UnaryExpr)
+					if !ok || u.Op != token.NOT {
+						break
+					}
+					neg = !neg
+					e = ast.Unparen(u.X)
 				}
+				// `v, ok := helper(); ok` forms: the condition is an identifier bound to a helper's bool result
+				if id, ok := e.(*ast.Ident); ok {
+					if src := boolResultSource(info, fi, id); src != nil {
+						e = src
+					}
+				}
+				if c, ok := e.(*ast.CallExpr); ok {
+					if k := witness(fi, c); k != "" && st.Val != neg {
+						return []string{"succ:" + k}
+					}
+				}
+			case StNode:
+				var evs []string
+				for _, c := range callsIn(st.Node) {
+					if calleeName(info, c) == "atomic.AddInt32" && len(c.Args) == 2 && strings.HasSuffix(exprStr(c.Args[0]), ".inuseStreams") {
+						if k, ok := constInt(info, c.Args[1]); ok && k == 1 {
+							evs = append(evs, "inc")
+						} else if ok && k == -1 {
+							evs = append(evs, "dec")
+						} else {
+							evs = append(evs, "odd")
+						}
+					}
+				}
+				return evs
 			}
-			r.Check(casTrue, c, name+" count update dominated by a successful CAS", "CAS known true", "the in-use count is updated on a path where the compare-and-swap did not succeed: the count drifts from the number of set bits (available() wrong, 'negative streams inuse' panic)")
-			return true
-		})
-		if n != 1 {
-			r.Check(false, fi.Decl, name+" updates the in-use count exactly once", "", "expected exactly one in-use count update, found "+itoa(n))
+			return nil
+		}
+		ef := g.Events(cl)
+		// every count update is preceded by the matching success on every path
+		for _, c := range callsIn(fi.Decl.Body) {
+			if calleeName(info, c) != "atomic.AddInt32" || len(c.Args) != 2 || !strings.HasSuffix(exprStr(c.Args[0]), ".inuseStreams") {
+				continue
+			}
+			nadd++
+			k, isK := constInt(info, c.Args[1])
+			if !isK || (k != 1 && k != -1) {
+				r.Bad(c, fi.Name+" changes the in-use count by "+exprStr(c.Args[1]), "the in-use count is changed by something other than +1 / -1")
+				continue
+			}
+			need := "succ:claim"
+			if k == -1 {
+				need = "succ:clear"
+			}
+			s, _ := ef.Sol.Before(p.stmtOf(c, fi))
+			r.Check(s.Must[need], c, fi.Name+" count update "+exprStr(c.Args[1])+" only after the matching successful CAS", need+" on every path to the update",
+				"the in-use count is updated on a path where the matching compare-and-swap did not succeed: the count drifts from the number of set bits (Available() wrong, 'negative streams inuse' panic)")
+		}
+		// every exit reached after a success has updated the count exactly once, unless this function is a helper
+		// that hands the success to its caller
+		isHelper := kindOf[fi] != "" && !hasCountUpdate(info, fi)
+		for _, e := range g.Exits() {
+			if e.Kind == ExitPanic {
+				continue
+			}
+			s, ok := ef.ExitState(e)
+			if !ok {
+				continue
+			}
+			for _, k := range []string{"claim", "clear"} {
+				if !s.Must["succ:"+k] {
+					continue
+				}
+				ev := "inc"
+				if k == "clear" {
+					ev = "dec"
+				}
+				if isHelper {
+					continue
+				}
+				r.Check(s.Must[ev] && s.Max[ev] == 1, e.Node, fi.Name+" exit "+exitDesc(p, e)+" after a successful "+k+" updated the count exactly once", ev+" exactly once",
+					"a path returns after a successful "+k+" compare-and-swap with the in-use count updated "+itoa(s.Max[ev])+" time(s) (must be exactly once)")
+			}
 		}
 	}
-	// Clear: every `return false` happens without a decrement and under the already-clear test
+	if nadd < 2 {
+		r.Unresolved("expected an increment and a decrement of the in-use count, found %d update(s)", nadd)
+	}
+	// Clear: false only without a decrement, true only with one
 	if fi := r.NeedFunc("streams.(*IDGenerator).Clear"); fi != nil {
 		g := p.GraphOf(fi)
 		info := g.Info
-		facts := g.GuardFacts()
 		ef := g.Events(func(st Step) []string {
 			if st.Kind == StNode {
 				for _, c := range callsIn(st.Node) {
@@ -358,35 +629,58 @@ func c08r3(p *Program, r *Report) {
 			}
 			return nil
 		})
-		nf := 0
 		for _, e := range g.Exits() {
 			rs, ok := e.Node.(*ast.ReturnStmt)
 			if !ok || len(rs.Results) != 1 {
 				continue
 			}
-			v, ok := info.Types[rs.Results[0]]
-			if !ok || v.Value == nil {
-				continue
-			}
 			s, _ := ef.ExitState(e)
-			if v.Value.String() == "false" {
-				nf++
-				f, _ := facts.Before(rs)
-				clear := false
-				for atom := range f.m {
-					if strings.Contains(atom, "& mask") || strings.Contains(atom, "&mask") {
-						clear = true
-					}
-				}
-				r.Check(s.Max["dec"] == 0 && clear, rs, "(*IDGenerator).Clear returns false only for an already clear id, without decrementing", "no decrement on this path; bit tested", "Clear reports 'not in use' after decrementing, or without having tested the bit: double release corrupts the count")
-			} else {
+			switch exprStr(rs.Results[0]) {
+			case "false":
+				r.Check(s.Max["dec"] == 0, rs, "(*IDGenerator).Clear reports 'not in use' without decrementing", "no decrement on this path", "Clear reports 'not in use' after decrementing: a double release corrupts the count")
+			case "true":
 				r.Check(s.Must["dec"], rs, "(*IDGenerator).Clear decrements before reporting a release", "count decremented", "Clear returns true without decrementing the in-use count")
 			}
 		}
-		if nf < 2 {
-			r.Unresolved("Clear: expected the already-clear early return in the pre-check and in the retry loop, found %d", nf)
+	}
+}
+
+func hasCountUpdate(info *types.Info, fi *FuncInfo) bool {
+	for _, c := range callsIn(fi.Decl.Body) {
+		if calleeName(info, c) == "atomic.AddInt32" {
+			return true
 		}
 	}
+	return false
+}
+
+// boolResultSource: id is the boolean of `v, id := call(...)` (or `id := call()`), defined once: returns the call.
+func boolResultSource(info *types.Info, fi *FuncInfo, id *ast.Ident) ast.Expr {
+	obj := info.Uses[id]
+	if obj == nil {
+		return nil
+	}
+	var src ast.Expr
+	n := 0
+	ast.Inspect(fi.Decl.Body, func(x ast.Node) bool {
+		as, ok := x.(*ast.AssignStmt)
+		if !ok || len(as.Rhs) != 1 {
+			return true
+		}
+		for _, l := range as.Lhs {
+			if lid, ok := l.(*ast.Ident); ok && (info.Defs[lid] == obj || info.Uses[lid] == obj) && lid != id {
+				n++
+				if c, ok := ast.Unparen(as.Rhs[0]).(*ast.CallExpr); ok {
+					src = c
+				}
+			}
+		}
+		return true
+	})
+	if n != 1 {
+		return nil
+	}
+	return src
 }
 
 func c08r4(p *Program, r *Report) {
@@ -451,26 +745,258 @@ func c08r4(p *Program, r *Report) {
 		s := exprStr(sf.Decl.Body.List[0].(*ast.ReturnStmt).Results[0])
 		r.Check(s == "(bucket * bucketBits) + streamInBucket", sf.Decl, "streams.streamFromBucket = word*64 + bit index", s, "ids are no longer word*64+bit")
 	}
-	// GetStream: word index reduced modulo numBuckets; bit loop j < bucketBits
-	if gs := r.NeedFunc("streams.(*IDGenerator).GetStream"); gs != nil {
-		ginfo := gs.Pkg.TypesInfo
-		okMod, okBits := false, false
-		ast.Inspect(gs.Decl.Body, func(x ast.Node) bool {
-			switch s := x.(type) {
-			case *ast.AssignStmt:
-				if len(s.Lhs) == 1 && exprStr(s.Lhs[0]) == "pos" && strings.Contains(exprStr(s.Rhs[0]), "% s.numBuckets") {
-					okMod = true
+	// claiming CAS sites: the word index is reduced modulo the word count, the bit comes from a loop over exactly
+	// the 64 bit positions, and the id handed out is streamFromBucket(that word, that bit)
+	sites, _ := casSites(p)
+	nclaim := 0
+	for _, st := range sites {
+		if !st.claim {
+			continue
+		}
+		nclaim++
+		fi2 := st.fi
+		info2 := fi2.Pkg.TypesInfo
+		name := fi2.Name
+		// resolve through a local copy: n := s.numBuckets
+		isWordCount := func(e ast.Expr) bool {
+			e = stripAllConv(info2, e)
+			s := strings.ReplaceAll(exprStr(e), " ", "")
+			if strings.HasSuffix(s, ".numBuckets") || strings.HasPrefix(s, "len(") && strings.HasSuffix(s, ".streams)") {
+				return true
+			}
+			if id, ok := e.(*ast.Ident); ok && info2.Uses[id] != nil && singleAssigned(info2, fi2.Decl.Body, info2.Uses[id]) {
+				if d := localDef(info2, fi2, id); d != nil {
+					ds := strings.ReplaceAll(exprStr(stripAllConv(info2, d)), " ", "")
+					return strings.HasSuffix(ds, ".numBuckets") || strings.HasPrefix(ds, "len(") && strings.HasSuffix(ds, ".streams)")
 				}
-			case *ast.ForStmt:
-				if s.Cond != nil && exprStr(s.Cond) == "j < bucketBits" {
-					okBits = true
+			}
+			return false
+		}
+		modOK := func(e ast.Expr) bool {
+			e = stripAllConv(info2, e)
+			b, ok := ast.Unparen(e).(*ast.BinaryExpr)
+			return ok && b.Op == token.REM && isWordCount(b.Y)
+		}
+		idxOK, idxWhy := false, exprStr(st.idx)
+		idxExpr := stripAllConv(info2, st.idx)
+		if modOK(idxExpr) {
+			idxOK = true
+		} else if id, ok := idxExpr.(*ast.Ident); ok {
+			if d := localDef(info2, fi2, id); d != nil && modOK(d) {
+				idxOK, idxWhy = true, id.Name+" := "+exprStr(d)
+			} else if po := info2.Uses[id]; po != nil {
+				// a parameter of a helper: every call site passes a reduced index
+				k := paramIndexByName(fi2.Decl.Type, id.Name)
+				if k >= 0 {
+					nsite, okAll := 0, true
+					for _, caller := range streamsPkgFuncs(p) {
+						ci := caller.Pkg.TypesInfo
+						for _, c := range callsIn(caller.Decl.Body) {
+							if fn := calleeOf(ci, c); fn != nil && p.FuncOf(fn) == fi2 && k < len(c.Args) {
+								nsite++
+								a := stripAllConv(ci, c.Args[k])
+								okA := false
+								if aid, ok := a.(*ast.Ident); ok {
+									if d := localDef(ci, caller, aid); d != nil {
+										dd := stripAllConv(ci, d)
+										if b, ok := ast.Unparen(dd).(*ast.BinaryExpr); ok && b.Op == token.REM {
+											ys := strings.ReplaceAll(exprStr(stripAllConv(ci, b.Y)), " ", "")
+											if strings.HasSuffix(ys, ".numBuckets") || strings.HasSuffix(ys, ".streams)") || strings.Contains(ys, "numBuckets") {
+												okA = true
+											}
+										}
+									}
+								}
+								if !okA {
+									okAll = false
+								}
+							}
+						}
+					}
+					if nsite > 0 && okAll {
+						idxOK, idxWhy = true, "parameter "+id.Name+", reduced modulo the word count at every call site"
+					}
+				}
+			}
+		}
+		// a helper working on a sub-slice: the index ranges over that slice; the relation to the id is checked below
+		var baseSlice *ast.Ident
+		if u, ok := ast.Unparen(st.call.Args[0]).(*ast.UnaryExpr); ok {
+			if ix, ok := ast.Unparen(u.X).(*ast.IndexExpr); ok {
+				if bid, ok := ast.Unparen(ix.X).(*ast.Ident); ok {
+					baseSlice = bid
+				}
+			}
+		}
+		if baseSlice != nil && !idxOK {
+			if id, ok := idxExpr.(*ast.Ident); ok {
+				if loop := p.enclosing(st.call, fi2.Decl, func(n ast.Node) bool {
+					switch l := n.(type) {
+					case *ast.RangeStmt:
+						return l.Key != nil && exprStr(l.Key) == id.Name && exprStr(l.X) == baseSlice.Name
+					case *ast.ForStmt:
+						if c, ok := l.Cond.(*ast.BinaryExpr); ok && c.Op == token.LSS && exprStr(c.X) == id.Name && exprStr(c.Y) == "len("+baseSlice.Name+")" {
+							return true
+						}
+					}
+					return false
+				}); loop != nil {
+					idxOK, idxWhy = true, id.Name+" ranges over the sub-slice "+baseSlice.Name
+				}
+			}
+		}
+		r.Check(idxOK, st.call, name+": word index of the claiming CAS is reduced modulo the word count", idxWhy, "the word index ("+exprStr(st.idx)+") is not reduced modulo the number of words: index out of range or ids beyond the protocol's range")
+		// the bit: mask = 1 << streamOffset(J), J a loop variable over 0 .. bucketBits-1
+		var bitVar *ast.Ident
+		maskDef := st.mask
+		if mid, ok := ast.Unparen(st.mask).(*ast.Ident); ok {
+			if d := localDef(info2, fi2, mid); d != nil {
+				maskDef = d
+			}
+		}
+		ast.Inspect(maskDef, func(x ast.Node) bool {
+			if c, ok := x.(*ast.CallExpr); ok && isCallTo(info2, c, "streams.streamOffset") && len(c.Args) == 1 {
+				if id, ok := ast.Unparen(c.Args[0]).(*ast.Ident); ok {
+					bitVar = id
 				}
 			}
 			return true
 		})
-		_ = ginfo
-		r.Check(okMod, gs.Decl, "(*IDGenerator).GetStream word index reduced modulo the word count", "pos = (...) % s.numBuckets", "the word index is not reduced modulo the number of words: index out of range or ids beyond the protocol's range")
-		r.Check(okBits, gs.Decl, "(*IDGenerator).GetStream scans the 64 bits of a word", "j < bucketBits", "the bit scan does not cover exactly the 64 bits of a word: ids are never used or exceed the word")
+		bitsOK := false
+		if bitVar != nil {
+			if loop, ok := p.enclosing(st.call, fi2.Decl, func(n ast.Node) bool {
+				f, is := n.(*ast.ForStmt)
+				if !is || f.Init == nil || f.Cond == nil || f.Post == nil {
+					return false
+				}
+				as, ok := f.Init.(*ast.AssignStmt)
+				return ok && len(as.Lhs) == 1 && exprStr(as.Lhs[0]) == bitVar.Name
+			}).(*ast.ForStmt); ok {
+				init := loop.Init.(*ast.AssignStmt)
+				k0, ok0 := constInt(info2, init.Rhs[0])
+				cond, okC := loop.Cond.(*ast.BinaryExpr)
+				inc, okP := loop.Post.(*ast.IncDecStmt)
+				if ok0 && k0 == 0 && okC && cond.Op == token.LSS && exprStr(cond.X) == bitVar.Name && okP && inc.Tok == token.INC && exprStr(inc.X) == bitVar.Name {
+					if lim, ok := constInt(info2, cond.Y); ok && lim == 64 {
+						bitsOK = true
+					}
+				}
+			}
+		}
+		r.Check(bitsOK, st.call, name+": the claimed bit ranges over exactly the 64 positions of a word", "mask = 1 << streamOffset(j), j = 0 .. 63", "the bit scan does not cover exactly the 64 bits of a word (mask "+exprStr(maskDef)+"): ids are never used or exceed the word")
+		// the id handed out
+		idOK, idWhy := false, ""
+		if bitVar != nil {
+			// same function
+			for _, c := range callsIn(fi2.Decl.Body) {
+				if isCallTo(info2, c, "streams.streamFromBucket") && len(c.Args) == 2 {
+					a0 := exprStr(stripAllConv(info2, c.Args[0]))
+					if a0 == exprStr(idxExpr) && exprStr(c.Args[1]) == bitVar.Name {
+						idOK, idWhy = true, exprStr(c)
+					} else {
+						idWhy = exprStr(c)
+					}
+				}
+			}
+			if !idOK && baseSlice != nil {
+				// id = streamFromBucket(B + idx, j) with B a parameter: at every call site the slice passed for the
+				// words must start at index B of s.streams
+				for _, c := range callsIn(fi2.Decl.Body) {
+					if !isCallTo(info2, c, "streams.streamFromBucket") || len(c.Args) != 2 || exprStr(c.Args[1]) != bitVar.Name {
+						continue
+					}
+					sum, ok := ast.Unparen(stripAllConv(info2, c.Args[0])).(*ast.BinaryExpr)
+					if !ok || sum.Op != token.ADD {
+						continue
+					}
+					var baseParam string
+					switch {
+					case exprStr(ast.Unparen(sum.Y)) == exprStr(idxExpr):
+						baseParam = exprStr(ast.Unparen(sum.X))
+					case exprStr(ast.Unparen(sum.X)) == exprStr(idxExpr):
+						baseParam = exprStr(ast.Unparen(sum.Y))
+					}
+					kB := paramIndexByName(fi2.Decl.Type, baseParam)
+					kS := paramIndexByName(fi2.Decl.Type, baseSlice.Name)
+					if kB < 0 || kS < 0 {
+						continue
+					}
+					idOK, idWhy = true, exprStr(c)+" with "+baseParam+" = start of the sub-slice at every call site"
+					for _, caller := range streamsPkgFuncs(p) {
+						ci := caller.Pkg.TypesInfo
+						for _, cc := range callsIn(caller.Decl.Body) {
+							if fn := calleeOf(ci, cc); fn == nil || p.FuncOf(fn) != fi2 || kB >= len(cc.Args) || kS >= len(cc.Args) {
+								continue
+							}
+							low := "0"
+							if se, ok := ast.Unparen(cc.Args[kS]).(*ast.SliceExpr); ok {
+								if se.Low != nil {
+									low = exprStr(se.Low)
+								}
+							} else {
+								low = "?"
+							}
+							got := exprStr(cc.Args[kB])
+							if k, isK := constInt(ci, cc.Args[kB]); isK && k == 0 {
+								got = "0"
+							}
+							if got != low {
+								idOK = false
+								idWhy = fmt.Sprintf("%s: %s is called with the words starting at index %s of the stream words but with base %s: the id handed out is %s+i, not the word that was claimed", p.Pos(cc), fi2.Name, low, got, got)
+							}
+						}
+					}
+				}
+			}
+			if !idOK && idWhy == "" {
+				// helper returns the bit; the caller combines it with the index it passed
+				retBit := false
+				for _, e := range p.GraphOf(fi2).Exits() {
+					if rs, ok := e.Node.(*ast.ReturnStmt); ok && len(rs.Results) == 2 && exprStr(rs.Results[1]) == "true" {
+						retBit = exprStr(rs.Results[0]) == bitVar.Name
+					}
+				}
+				if id, ok := idxExpr.(*ast.Ident); ok && retBit {
+					k := paramIndexByName(fi2.Decl.Type, id.Name)
+					for _, caller := range streamsPkgFuncs(p) {
+						ci := caller.Pkg.TypesInfo
+						ast.Inspect(caller.Decl.Body, func(x ast.Node) bool {
+							as, ok := x.(*ast.AssignStmt)
+							if !ok || len(as.Rhs) != 1 || len(as.Lhs) != 2 {
+								return true
+							}
+							hc, ok := ast.Unparen(as.Rhs[0]).(*ast.CallExpr)
+							if !ok || k < 0 || k >= len(hc.Args) {
+								return true
+							}
+							if fn := calleeOf(ci, hc); fn == nil || p.FuncOf(fn) != fi2 {
+								return true
+							}
+							passed := exprStr(stripAllConv(ci, hc.Args[k]))
+							got := exprStr(as.Lhs[0])
+							for _, c := range callsIn(caller.Decl.Body) {
+								if isCallTo(ci, c, "streams.streamFromBucket") && len(c.Args) == 2 {
+									if exprStr(stripAllConv(ci, c.Args[0])) == passed && exprStr(c.Args[1]) == got {
+										idOK, idWhy = true, caller.Name+": "+exprStr(c)+" with "+got+" from "+fi2.Name
+									} else {
+										idWhy = exprStr(c)
+									}
+								}
+							}
+							return true
+						})
+					}
+				}
+			}
+		}
+		if idWhy == "" {
+			r.Unresolved("%s: could not relate the id handed out to the claimed word and bit", name)
+		} else {
+			r.Check(idOK, st.call, name+": the id handed out is built from the claimed word and bit", idWhy, "the returned id ("+idWhy+") is not computed from the word index and bit position that the compare-and-swap claimed: the caller receives an id whose bit it does not own (duplicate or out of range), and the claimed id is leaked")
+		}
+	}
+	if nclaim == 0 {
+		r.Unresolved("no claiming compare-and-swap found")
 	}
 	_ = types.Typ
 }
@@ -498,4 +1024,22 @@ func c08r5(p *Program, r *Report) {
 	if n < 2 {
 		r.Unresolved("allocator call sites not found")
 	}
+}
+
+// testsBitOf: n contains a test of a bit of the variable obj (obj & mask compared with something).
+func testsBitOf(info *types.Info, n ast.Node, obj types.Object) bool {
+	found := false
+	ast.Inspect(n, func(x ast.Node) bool {
+		b, ok := x.(*ast.BinaryExpr)
+		if !ok || b.Op != token.AND {
+			return true
+		}
+		for _, side := range []ast.Expr{b.X, b.Y} {
+			if id, ok := ast.Unparen(side).(*ast.Ident); ok && info.Uses[id] == obj {
+				found = true
+			}
+		}
+		return true
+	})
+	return found
 }
